@@ -446,6 +446,14 @@ def main(argv):
         unit_reports.append({"unit": unit, "auto_included_helpers": getattr(ur, "auto_included", []), "verified": ur.vr.get("verified"), "errors": ur.vr.get("errors"), "verus_wall_s": round(ur.run["wall"], 2),
                              "canary_verified": cr.vr.get("verified"), "canary_errors": cr.vr.get("errors")})
 
+    # ---- assumption guard (C06 only; never a violation) ----
+    if cfg.get("assumption_guard") and not undecided:
+        import assumption_guard
+        probs = assumption_guard.check(extract.REPO)
+        for pr_ in probs:
+            undecided.append("assumption-unsupported (derived Clone of session components = independent deep copy; no session state outside Context): " + pr_)
+        trusted.append("[guard] audit of shared-mutable constructs in numbat/src (vx/assumption_guard.py): " + ("unchanged" if not probs else "CHANGED"))
+
     # ---- extra engines (Kani) ----
     extra = {}
     if not undecided and cfg.get("kani") and (tier == "thorough" or cfg.get("kani_in_quick")):
